@@ -84,7 +84,8 @@ def main():
             obs, failing = attempt(src, inp)
         except Exception as e:
             continue
-        if clause in failing or (clause.startswith('noescape') and any(f.startswith('noescape') for f in failing)):
+        if clause in failing or ((clause.startswith('noescape') or clause.startswith('pre[')) and
+                                 any(f.startswith('noescape') for f in failing)):
             print(json.dumps({'verdict': 'reproduced', 'source': src, 'inputs': jsonable(inp),
                               'observed': jsonable(obs), 'failing_clauses': sorted(failing),
                               'clause': clause, 'tried': tried}))
@@ -98,7 +99,7 @@ def main():
                 obs, failing = attempt('falsifier', inp)
             except Exception as e:
                 continue
-            if clause in failing or (clause.startswith('noescape') and
+            if clause in failing or ((clause.startswith('noescape') or clause.startswith('pre[')) and
                                      any(f.startswith('noescape') for f in failing)):
                 print(json.dumps({'verdict': 'reproduced', 'source': 'falsifier (bounded enumeration '
                                   'of real executions)', 'inputs': jsonable(inp),
